@@ -99,8 +99,7 @@ Example C15_nonvacuous :
   exists L main t1 t2 t3,
     pre L main = true /\
     run_bundle quirks_on 24 L main = run_bundle quirks_off 24 L main /\
-    resolve_src quirks_on 24 L main =
-      Ok (Node (script 2 [rel [zs "a"]; rooted [zs "b"; zs "c"]; rel [zs "d.json"]]) KScript [t1; t2; t3]).
+    resolve_src quirks_on 24 L main = Ok (Node w_ok_main KScript [t1; t2; t3]).
 Proof. exact nonvacuous. Qed.
 Print Assumptions C15_nonvacuous.
 
